@@ -161,6 +161,9 @@ def run(check, ctx):
     # the native Poly1305 (tag of ChaCha20-Poly1305) on a boundary table of limb values
     from . import c_poly
     c_poly.poly_tables(check, ctx)
+    # the native OCB tag (and plaintext recovered on decryption) over a concrete bijection
+    from . import c_ocb
+    c_ocb.ocb_tables(check, ctx, groups=("crypt",))
     check.undecided.append("equality of the expected tag with the mode's "
                            "specification for every input (GHASH, CBC-MAC, "
                            "OMAC, S2V, OCB arithmetic; Poly1305 beyond the boundary table)")
